@@ -36,7 +36,7 @@ META = {
                   "itself decides rotation pairs with allclose(rtol=1e-5, atol=1e-8): pairs that commute only to ~1e-5 are accepted. "
                   "False answers on commuting non-Pauli pairs are allowed by the statement and only counted.",
     "shards": {"quick": 4, "thorough": 16},
-    "budget_s": {"quick": 100, "thorough": 150},
+    "budget_s": {"quick": 100, "thorough": 120},
     "min_evals": {"quick": 1500, "thorough": 30000},
     "deciding": ["commute.sound", "commute.pauli_exact", "dag.pair"],
     "rule": "case = (type a, type b, overlap pattern, parameters); distinct = distinct (types, pattern, rounded parameters); non-trivial = "
